@@ -1,4 +1,5 @@
 import Skv.Lemmas.History
+import Skv.Lemmas.HistRange
 import Skv.Lemmas.Compact
 /-!
 # C10 — time-travel reads and version history are exact and permanent
@@ -30,12 +31,34 @@ theorem C10_limit_prefix (o : HOpts) (snap : Nat) (keys : List (Nat × List HVer
     histFwd { o with limit := some n } snap keys = (histFwd { o with limit := none } snap keys).take n := by
   simp [histFwd, applyLimit]
 
-/-- known finding: set@10, hard delete@50, queried with timestamp range [0, 40]: the delete is
-skipped by the range filter before it can act as a barrier, so the erased version is listed -/
-theorem C10_finding_ts_range_skips_barrier :
+/-- **history with a timestamp range** (after the `fix:` commit that lets a version above the range take
+part in the barrier logic): forward, for every range, snapshot, option set and limit, provided the
+timestamps of a key's versions do not increase towards older versions (the cut below the range relies on
+it; the store stamps versions with the commit time, `set_at` callers choose their own) -/
+theorem C10_history_forward_ts_range (o : HOpts) (snap : Nat) (keys : List (Nat × List HVer))
+    (hd : ∀ kv ∈ keys, TsNonInc kv.2) : histFwd o snap keys = specHistory o snap keys :=
+  histFwd_eq_spec_range o snap keys hd
+
+/-- backward, for every range (no assumption on the timestamps: the backward loop never cuts) -/
+theorem C10_history_backward_ts_range (o : HOpts) (snap : Nat) (keys : List (Nat × List HVer)) :
+    histBwd o snap keys =
+      applyLimit o ((keys.flatMap (fun kv => (specKey o snap kv.2).map (fun v => (kv.1, v)))).reverse) :=
+  histBwd_eq_spec_range o snap keys
+
+/-- the repaired defect: set@10, hard delete@50, queried with timestamp range [0, 40]: the delete was
+skipped by the range filter before it could act as a barrier, so the erased version was listed -/
+theorem fixed_ts_range_skipped_barrier :
     let vs : List HVer := [⟨2, .delete, 50, 0⟩, ⟨1, .set, 10, 7⟩]
     let o : HOpts := { range := some (0, 40) }
-    histKeyFwd o.tombs o.range 100 false false false vs = [⟨1, .set, 10, 7⟩] ∧ specKey o 100 vs = [] := by decide
+    histKeyFwdOld o.tombs o.range 100 false false false vs = [⟨1, .set, 10, 7⟩] ∧
+    histKeyFwd o.tombs o.range 100 false false false vs = [] ∧ specKey o 100 vs = [] := by decide
+
+/-- without the timestamp assumption the cut below the range loses versions: a version written with
+`set_at` at a timestamp above an older one's -/
+theorem ts_cut_needs_ordered_timestamps :
+    let vs : List HVer := [⟨2, .set, 5, 0⟩, ⟨1, .set, 30, 7⟩]
+    let o : HOpts := { range := some (20, 40) }
+    histKeyFwd o.tombs o.range 100 false false false vs = [] ∧ specKey o 100 vs = [⟨1, .set, 30, 7⟩] := by decide
 
 /-- known finding (compaction, versioning, above the last level): soft delete@4 over hard delete@2:
 the hard delete is dropped ("older DELETE: always stale"), so it no longer erases the versions of
@@ -76,3 +99,44 @@ timestamp not above `t` (nothing if that version is a tombstone or none exists),
 whose timestamps strictly decrease from newest to oldest -/
 theorem C10_get_at (snap t : Nat) (vs : List HVer) (h : TsDesc vs) : getAt snap t vs = specGetAt snap t vs :=
   getAt_eq_spec snap t vs h
+
+
+/-- **backward history.** `seek_last` / `prev` list, for the keys taken from the end of the range, each
+key's retained versions oldest first: the forward listing read from the other end (the limit then cuts
+that sequence).  The per-key loop collects the versions oldest first and searches the newest barrier from
+the newest end; `histKeyBwd` is a literal model of it. -/
+theorem C10_history_backward (o : HOpts) (hr : o.range = none) (snap : Nat) (keys : List (Nat × List HVer)) :
+    histBwd o snap keys =
+      applyLimit o ((keys.flatMap (fun kv => (specKey o snap kv.2).map (fun v => (kv.1, v)))).reverse) :=
+  histBwd_eq_spec o hr snap keys
+
+theorem C10_history_backward_key (tombs : Bool) (snap : Nat) (vs : List HVer) :
+    histKeyBwd tombs none snap vs = (specKey { tombs := tombs, range := none } snap vs).reverse :=
+  histKeyBwd_eq_spec tombs snap vs
+
+/-- non-vacuity: set, soft delete, replace, set, hard-deleted older history — backward lists from the
+replace on, oldest first -/
+example :
+    (histKeyBwd true none 100
+      [⟨5, .set, 50, 5⟩, ⟨4, .replace, 40, 4⟩, ⟨3, .softDelete, 30, 0⟩, ⟨2, .set, 20, 2⟩]).map (·.seq) = [4, 5] := by decide
+
+/-- **exactly once.**  When the merge delivers some versions of a key twice in a row (the version index
+and a replayed memtable after a crash inside a flush; two memtables after a retried apply), the listing
+is the one of the versions themselves: every retained version once.  Sequence numbers of distinct
+versions of a key differ. -/
+theorem C10_each_version_once (o : HOpts) (hr : o.range = none) (snap : Nat) (vs : List HVer)
+    (twice : HVer → Bool) (hd : vs.Pairwise (fun a b => a.seq ≠ b.seq)) :
+    histKeyFwdD o.tombs o.range snap (withCopies twice vs) = specKey o snap vs := by
+  unfold histKeyFwdD
+  rw [dedupAdj_withCopies twice vs hd]
+  exact histKeyFwd_eq_spec o hr snap vs
+
+/-- the loop before the `fix:` commit (no pass over repeated versions) lists a version delivered twice
+twice -/
+theorem fixed_history_listed_a_replayed_version_twice :
+    (histKeyFwd true none 100 false false false
+      (withCopies (fun v => decide (v.seq ≥ 11)) [⟨12, .set, 12, 1⟩, ⟨11, .set, 11, 1⟩, ⟨3, .set, 3, 1⟩])).map (·.seq)
+      = [12, 12, 11, 11, 3] ∧
+    (histKeyFwdD true none 100
+      (withCopies (fun v => decide (v.seq ≥ 11)) [⟨12, .set, 12, 1⟩, ⟨11, .set, 11, 1⟩, ⟨3, .set, 3, 1⟩])).map (·.seq)
+      = [12, 11, 3] := by decide
